@@ -36,6 +36,11 @@ Round 3.
   Lean `alphaRow`) and `NestsForNestedLogit.correlation` (tuples = objects, all parameters one = identity,
   = Lean `nestedCorr`).
 * The family helpers are this property's own copy (`props/c06_base.py`).
+* Evaluated != initial values (`reinit`, `case_betas`): nest parameters, scale and memberships as FREE Betas whose
+  initial value (0, 1, 0.3, …) is not the value at which the model is evaluated (`betas=` of get_value_c, as simulate /
+  an iteration of the estimation do): every relation, the three-way tie and the semantic model are stated at the
+  EVALUATED values (initial 0 -> evaluated 1, initial 1 -> evaluated 0, …).  Known finding F-C06-2 is matched by
+  `is_param_zero_cnlmu` only (cnlmu side, zeros written as parameters, nothing evaluated away from its initial value).
 """
 
 from __future__ import annotations
@@ -99,7 +104,7 @@ ASSUMPTIONS = [
 ]
 RULE = (
     'a configuration = relation x alternatives (2-7, non-contiguous labels) x utilities x availability (None, 0/1, counts, a nest emptied or left with one member) x nest structure (members only, table with zeros, '
-    'a nest with the constant parameter 1, nests in another order) x form of the parameters (float, int, Numeric, fixed / free Beta) x entry point (current / deprecated name); '
+    'a nest with the constant parameter 1, nests in another order) x form of the parameters (float, int, Numeric, fixed / free Beta, free Beta evaluated away from its initial value) x entry point (current / deprecated name); '
     'non-trivial = a nest with >= 2 members or an unavailable alternative or an alone alternative'
 )
 
@@ -209,6 +214,9 @@ def mk_param6(p, name=None):
     from biogeme.expressions import Beta, Numeric
 
     f, v = p['form'], float(p['v'])
+    if p.get('init') is not None:
+        # a free parameter whose INITIAL value is not the value at which the model is evaluated (case_betas)
+        return Beta(name or p['name'], float(p['init']), None, None, 0)
     if f == 'num':
         return v
     if f == 'int':
@@ -216,6 +224,27 @@ def mk_param6(p, name=None):
     if f == 'numeric':
         return Numeric(v)
     return Beta(name or p['name'], v, None, None, 0 if f == 'beta_free' else 1)
+
+
+def alpha_name(m, j, a):
+    return f'alpha_{m["mu"].get("name", j)}_{a}'
+
+
+def case_betas(case):
+    """the values at which the model is evaluated, for the free parameters written with another initial
+    value: the `betas` dictionary of get_value_c (as simulate / an iteration of the estimation do)"""
+    out = {}
+    n = case.get('nests')
+    if n:
+        for j, m in enumerate(n['list']):
+            if m['mu'].get('init') is not None:
+                out[m['mu']['name']] = float(m['mu']['v'])
+            for t in m.get('alphas', []):
+                if len(t) > 3 and t[3] is not None:
+                    out[alpha_name(m, j, t[0])] = float(t[1])
+    if (case.get('mu') or {}).get('init') is not None:
+        out[case['mu']['name']] = float(case['mu']['v'])
+    return out
 
 
 def mk_nests(case):
@@ -231,7 +260,7 @@ def mk_nests(case):
         form = m.get('form') or ('tup' if n['syntax'] == 'tuple' else 'obj')
         kw = {'name': m['name']} if m.get('name') else {}
         if cnl:
-            al = {a: mk_param6({'v': x, 'form': aform}, name=f'alpha_{m["mu"].get("name", j)}_{a}') for a, x, aform in m['alphas']}
+            al = {t[0]: mk_param6({'v': t[1], 'form': t[2], 'init': t[3] if len(t) > 3 else None}, name=alpha_name(m, j, t[0])) for t in m['alphas']}
             items.append((mu, al) if form == 'tup' else OneNestForCrossNestedLogit(nest_param=mu, dict_of_alpha=al, **kw))
         else:
             items.append((mu, list(m['alts'])) if form == 'tup' else OneNestForNestedLogit(nest_param=mu, list_of_alternatives=list(m['alts']), **kw))
@@ -280,11 +309,11 @@ def evaluate(e, d, case, kind, alt, what, force=False):
     """real evaluation of an expression on every row; a sample of the evaluations is recorded at the
     boundary to the engine (signature text, parameter vectors, data) for the three-way comparison"""
     if OBS['on'] and not case.get('no_formula') and len(OBS['store']) < OBS['max'] and (force or OBS['rng'].random() < OBS['p']):
-        o = leanrun.observe(e, d)
+        o = leanrun.observe(e, d, case_betas(case))
         if 'values' in o:
             keep_observation(case, kind, alt, what, o)
             return o['values']
-    return [float(x) for x in e.get_value_c(database=d, prepare_ids=True)]
+    return [float(x) for x in e.get_value_c(database=d, betas=case_betas(case) or None, prepare_ids=True)]
 
 
 def real_values(case, log=False, choices=None):
@@ -362,9 +391,45 @@ def av_pattern(rng, case, p=0.35):
     return case
 
 
-def reform_params(rng, case, p=0.6):
+def other_value(rng, v):
+    """an initial value different from the evaluated value `v`, preferably exactly 0 or 1"""
+    return rng.choice([x for x in (0.0, 0.0, 1.0, 1.0, 0.3, 2.5, float(v) + 1.25) if x != float(v)])
+
+
+def reinit(rng, case, p=0.35, q=0.6, every=False):
+    """free parameters (nest parameters, scale, memberships) whose INITIAL value differs from the value at
+    which the model is evaluated (betas dictionary, as in simulation or in an iteration of the estimation):
+    initial 0 -> evaluated 1, initial 1 -> evaluated 0 / 0.3 / …  The relations are stated at the evaluated
+    values.  Left as they are: the constant 1 of a unit nest, and the zeros of an alternative that has no positive
+    membership at all (constants; as parameters they are the known finding F-C06-2)."""
+    if not every and rng.random() >= p:
+        return case
+    n = case.get('nests')
+    done = False
+    if n:
+        positive = {t[0] for m in n['list'] for t in m.get('alphas', []) if t[1] != 0}
+        for m in n['list']:
+            unit_const = n.get('unit_nest') and m['mu']['v'] == 1.0 and m['mu']['form'] in ('num', 'int', 'numeric')
+            if not unit_const and (every or rng.random() < q):
+                m['mu']['init'] = other_value(rng, m['mu']['v'])
+                done = True
+            for t in m.get('alphas', []):
+                if t[0] in positive and (every or rng.random() < q):
+                    t[2:] = ['beta_free', (0.0 if t[1] != 0 else 1.0) if (every or rng.random() < 0.6) else other_value(rng, t[1])]
+                    done = True
+    if 'mu' in case and (every or rng.random() < q):
+        case['mu']['init'] = other_value(rng, case['mu']['v'])
+        done = True
+    if done and n:
+        n['reinit'] = True
+    return case
+
+
+def reform_params(rng, case, p=0.6, with_reinit=True):
     """nest parameters, scale and memberships written as Python floats, ints, Numeric, fixed or free
     Betas.  The zeros of a membership table stay constants or parameters as they were written."""
+    if with_reinit:
+        reinit(rng, case)
     if rng.random() >= p:
         return case
     n = case.get('nests')
@@ -402,6 +467,8 @@ def reordered(rng, case, p=0.5):
 def shape_of(case):
     n = case.get('nests') or {}
     bits = [k for k in ('unit_nest', 'forms', 'reordered') if n.get(k)]
+    if n.get('reinit'):
+        bits.append('evaluated != initial values')
     if n.get('av_pattern'):
         bits.append(n['av_pattern'])
     return ', '.join(bits) or 'plain'
@@ -498,6 +565,9 @@ def rel_cnl_degenerate(ctx, res, rng):
     fam = 'nestedmu' if scaled else 'nested'
     case = shaped(rng, gen_case(rng, fam))
     cnl = reordered(rng, reform_params(rng, maybe_table(rng, to_degenerate_cnl(rng, case, 'cnlmu' if scaled else 'cnl'))))
+    if rng.random() < 0.3:
+        # memberships estimated: every alpha a free parameter that starts at the other end (own nest 0 -> 1, other nests 1 -> 0)
+        reinit(rng, cnl, every=True)
     res.count({'rel': 'cnl_degenerate', 'case': cnl}, nontrivial=nontrivial(case))
     res.tally('shape: ' + shape_of(cnl))
     res.tally('cnl(alpha=1, one nest each) = nested' + (' (with mu)' if scaled else '') + f', {table_of(cnl)}')
@@ -578,6 +648,9 @@ def rel_scale_one(ctx, res, rng):
     fam = rng.choice(['nestedmu', 'cnlmu'])
     case = gen_nested(rng, fam) if fam == 'nestedmu' else shaped(rng, maybe_table(rng, gen_case(rng, fam)))
     case['mu'] = {'v': 1.0, 'form': rng.choice(PARAM_FORMS), 'name': 'mu_top'}
+    if rng.random() < 0.3:
+        case['mu']['init'] = other_value(rng, 1.0)  # a free scale that starts elsewhere and is evaluated at 1
+        case['nests']['reinit'] = True
     if rng.random() < 0.2:
         case['alias'] = True
     base = reordered(rng, {k: v for k, v in case.items() if k not in ('mu', 'alias')}, p=0.3)
@@ -689,7 +762,7 @@ def real_generating(case, shifts=None):
             V[a] = e + s if s is not None else e
         av = mk_av(case)
         g = models.get_mev_generating_for_nested(V, av, mk_nests(case))
-        return {'ok': [float(x) for x in g.get_value_c(database=d, prepare_ids=True)]}
+        return {'ok': [float(x) for x in g.get_value_c(database=d, betas=case_betas(case) or None, prepare_ids=True)]}
     except Exception as e:  # noqa: BLE001
         return {'err': core.exc_kind(e), 'msg': f'{type(e).__name__}: {e}'[:300]}
 
@@ -710,7 +783,7 @@ def real_log_gi(case, alts=None):
             e = lg[a]
             if not hasattr(e, 'get_value_c'):
                 e = Numeric(e)
-            out[a] = [float(x) for x in e.get_value_c(database=d, prepare_ids=True)]
+            out[a] = [float(x) for x in e.get_value_c(database=d, betas=case_betas(case) or None, prepare_ids=True)]
         return {'ok': out, 'keys': sorted(lg.keys())}
     except Exception as e:  # noqa: BLE001
         return {'err': core.exc_kind(e), 'msg': f'{type(e).__name__}: {e}'[:300]}
@@ -1046,7 +1119,7 @@ def rel_tables(ctx, res, rng):
     if all_one:
         for m in nc['nests']['list']:
             m['mu']['v'] = 1.0
-    reform_params(rng, nc)
+    reform_params(rng, nc, with_reinit=False)
     mu = 1.0 if (all_one or rng.random() < 0.4) else float(nc['mu']['v'])
     cs = list(nc['nests']['choice_set'])
     res.count({'rel': 'correlation', 'case': nc, 'mu': mu}, nontrivial=True)
@@ -1351,6 +1424,22 @@ def _param_zero_corpus():
     cnl['no_formula'] = True
     return cnl, nested
 
+
+def is_param_zero_cnlmu(case):
+    """the input of known finding F-C06-2 and nothing else: side a is the variant WITH mu (cnlmu), no parameter is
+    evaluated away from its initial value, and some alternative has at least one membership, all of value 0, of which
+    at least one is written as a parameter (not the constant 0)"""
+    a = (case or {}).get('a') or {}
+    if a.get('family') != 'cnlmu' or case_betas(a):
+        return False
+    entries = {}
+    for m in (a.get('nests') or {}).get('list', []):
+        for t in m.get('alphas', []):
+            entries.setdefault(t[0], []).append(t)
+    return any(all(t[1] == 0 for t in ts) and any(t[2] not in ('num', 'int', 'numeric') for t in ts) for ts in entries.values())
+
+
+MATCHERS = {'param_zero_cnlmu': is_param_zero_cnlmu}
 
 RELATIONS = [rel_mu_one, rel_cnl_degenerate, rel_cnl_single_nest, rel_scale_one, rel_tuple_syntax, rel_generating, rel_euler, rel_named_nests,
              rel_formula, rel_tables]
